@@ -20,7 +20,7 @@ from ..core import Falsified, Outcome
 ID = "C12"
 LEVEL = "exploration"
 RULE = (
-    "Histories (Hypothesis RuleBasedStateMachine, 25/50 steps) over an alphabet of 14 solve specifications (shapes 6x5, 8x8, 7x9, "
+    "Histories (Hypothesis RuleBasedStateMachine, 25/50 steps) over an alphabet of 16 solve specifications (shapes 6x5, 8x8, 7x9, "
     "9x4; modes below/at/default; single and double precision; footprint and dispersion; single/multiple/unsorted levels; analytic; "
     "halo default/0/fractional; two specs differ from another only in the domain resp. the profiles, two more are near twins (8th digit) of other specs; the source array is one object per grid shape, refilled in place before every solve) each solvable in three representations of the same argument values (C / Fortran / transposed-view source, tuples or lists of profile arrays, Python ints, floats, NumPy scalars or persistent NumPy arrays for domain, halo, measurement point, levels, modes and background; no argument may be modified in place), and the operations set_threads(1..8), reset_fft_manager(), write-and-truncate the FFTW wisdom file "
     "then reset. Model: the first result seen for (spec, threads) - every later result for the same key must be bit-identical; every "
@@ -59,11 +59,14 @@ def _spec_inputs(k):
         # near twins of specs 0 and 5: forcing / geometry changed in the 8th digit (a finite-difference sensitivity run)
         (0, (4, 4), "double", False, 3, False, 0.0),
         (2, (6, 4), "double", True, 2, False, 0.0),
+        # fluxes of order 1e-7 (mol m-2 s-1), no background: double and its single-precision twin
+        (1, (8, 8), "double", False, [1, 4], False, 0.0),
+        (1, (8, 8), "single", False, [1, 4], False, 0.0),
     ]
     si, modes, prec, fp, lv, ana, halo = table[k]
     ny, nx = shapes[si]
     j, i = np.meshgrid(np.arange(ny), np.arange(nx), indexing="ij")
-    kq = {1: 0, 3: 2, 12: 0, 13: 5}.get(k, k)  # a single-precision spec and its double-precision twin share the source
+    kq = {1: 0, 3: 2, 12: 0, 13: 5, 15: 14}.get(k, k)  # a single-precision spec and its double-precision twin share the source
     q = np.cos(0.9 * i + 0.3 * j * j) + 0.2 * i + 0.15 * kq * np.sin(1.7 * j + kq)
     z = np.array([0.05, 0.5, 1.2, 2.2, 3.5, 5.0])
     u = 1.1 * np.log(z / 0.04) * (0.9 if not ana else 0 * z + 1)
@@ -78,20 +81,22 @@ def _spec_inputs(k):
         u, K = 0.8 * u, 1.3 * K
     if k == 12:
         u, K = u * (1.0 + 1e-8), K * (1.0 - 2e-8)
+    if k in (14, 15):
+        q = (q + 0.8) * 1e-7
     return dict(q=q, z=z, profiles=(u, v, K, 0.7 * K, 1.2 * K), domain=(240.0 * nx * dscale, 180.0 * ny), levels=lv, modes=modes,
-                meas_pt=(240.0 * (nx // 3), 180.0 * (ny // 2)) if fp else (0.0, 0.0), bg=1.0, footprint=fp, analytic=ana,
+                meas_pt=(240.0 * (nx // 3), 180.0 * (ny // 2)) if fp else (0.0, 0.0), bg=0.0 if k in (14, 15) else 1.0, footprint=fp, analytic=ana,
                 halo=halo, precision=prec)
 
 
-NSPEC = 14
+NSPEC = 16
 _QBUF = {}
 _PERSIST = {}
 
 
 class ArgumentMutated(Exception):
     pass
-TWIN = {1: 0, 3: 2}  # single-precision spec -> its double-precision twin
-SHAPE_OF = [0, 0, 1, 1, 2, 2, 3, 1, 3, 0, 0, 0, 0, 2]
+TWIN = {1: 0, 3: 2, 15: 14}  # single-precision spec -> its double-precision twin
+SHAPE_OF = [0, 0, 1, 1, 2, 2, 3, 1, 3, 0, 0, 0, 0, 2, 1, 1]
 
 
 def _represent(a, rep):
@@ -110,7 +115,7 @@ def _represent(a, rep):
         a["halo"] = as_int_if_integral(a["halo"])
         a["modes"] = list(a["modes"])
         a["profiles"] = [np.array(p) for p in a["profiles"]]
-        a["bg"] = 1
+        a["bg"] = int(a["bg"])
     else:
         a["q"] = np.ascontiguousarray(a["q"].T).T  # transposed view
         # (strided views of z / the profiles are NOT generated: the numba kernel rejects non-contiguous 1-D arrays with a
@@ -129,7 +134,7 @@ def _represent(a, rep):
             a["levels"] = _PERSIST[key]["levels"]
         a["halo"] = None if a["halo"] is None else np.float64(a["halo"])
         a["modes"] = (np.int64(a["modes"][0]), np.int64(a["modes"][1]))
-        a["bg"] = np.float64(1.0)
+        a["bg"] = np.float64(a["bg"])
     return a
 
 
